@@ -360,7 +360,18 @@ func main() {
 			cur = name
 			segStart = len(ref.trace)
 		}
-		runWorkload(w, ref, snap, &full, mark)
+		var refPanic interface{}
+		func() {
+			defer func() { refPanic = recover() }()
+			runWorkload(w, ref, snap, &full, mark)
+		}()
+		if refPanic != nil {
+			// the workload crashed the state machine without any injected crash
+			run.Violate(hx.Violation{Property: "C16", Clause: "restart_never_panics", Signature: fmt.Sprintf("panic-without-crash:%v", refPanic), Seq: wi,
+				What: fmt.Sprintf("workload %q run without any crash: the state machine panicked in its %q phase: %v", w.String(), cur, refPanic),
+				Ops:  map[string]interface{}{"workload": w.String(), "crash_at": 0, "seed": *seed, "workload_index": wi}})
+			continue
+		}
 		total := ref.n
 		run.Extra[fmt.Sprintf("workload_%d", wi)] = fmt.Sprintf("%s: %d file-system operations", w, total)
 		for _, name := range []string{"open", "recover", "reopen"} {
